@@ -164,8 +164,7 @@ impl ByteCompiler<'_> {
                                 );
                             }
                             Err(BindingLocatorError::MutateImmutable) => {
-                                let index = compiler.get_or_insert_string(name);
-                                compiler.bytecode.emit_throw_mutate_immutable(index.into());
+                                compiler.emit_throw_mutate_immutable_binding(name);
                             }
                             Err(BindingLocatorError::Silent) => {}
                         }
